@@ -18,6 +18,9 @@ import numpy as np
 import time
 
 
+STOP_TIMEOUT = 10.0
+
+
 @define
 class Transcript:
     positions: list[tak.Position] = field(factory=list)
@@ -196,8 +199,13 @@ class MultiprocessSelfPlayEngine:
             self.job.cmd.put(None, block=False)
 
         self.job.shutdown.set()
+        deadline = time.monotonic() + STOP_TIMEOUT
         for p in self.processes:
-            p.join()
+            p.join(timeout=max(0.0, deadline - time.monotonic()))
+            if p.is_alive():
+                # e.g. blocked on a queue lock that a killed sibling still held
+                p.kill()
+                p.join()
 
 
 def play_many_games(
